@@ -1,10 +1,10 @@
 """Which units (and extra engines) serve which property, plus MANIFEST metadata."""
-UNITS = ['u_list', 'u_jobs', 'u_tok', 'u_plan', 'u_exp1', 'u_calc', 'u_exp2']
+UNITS = ['u_list', 'u_jobs', 'u_tok', 'u_plan', 'u_exp1', 'u_calc', 'u_exp2', 'u_wait']
 
 PROPERTY_UNITS = {
     'C03': ['u_list'],
-    'C06': ['u_jobs'],
-    'C05': ['u_list', 'u_jobs', 'u_tok', 'u_plan', 'u_exp1', 'u_calc', 'u_exp2'],
+    'C06': ['u_jobs', 'u_wait'],
+    'C05': ['u_list', 'u_jobs', 'u_tok', 'u_plan', 'u_exp1', 'u_calc', 'u_exp2', 'u_wait'],
     'C01': ['u_plan', 'u_exp1', 'u_exp2'],
     'C13': ['u_plan', 'u_exp1', 'u_exp2'],
     'C12': ['u_exp1', 'u_exp2'],
@@ -30,7 +30,9 @@ META['C06'] = {
     'text': 'Verus proves whole-view postconditions and preservation of the table invariant (ids in 1..65535 equal to their key, non-empty duplicate-free '
             'pid lists, pairwise distinct group ids) for every job-table operation of Shell (insert_job: same group appends / new job takes the smallest '
             'free id; remove_pid_from_job: exactly that pid goes, the job goes iff it became empty; member stopped/continued; job running/stopped; lookups), '
-            'for all tables and all pid orders.',
+            'for all tables and all pid orders; and for the event protocol (U-WAIT): wait_fg_job against an ADVERSARIAL waitpid (any valid event in any order) keeps the '
+            'table well-formed, parks every event of a non-foreground child where the prompt-time poll finds it, and reports the status of the last stage\'s latest event; '
+            'WaitStatus accessors; state transitions of the jobc layer.',
     'note': 'std HashMap/HashSet/Vec contracts (vstd; get_mut and binary_search/position written out); < 65533 jobs; insert_job caller facts '
             '(same-gid job has all smaller ids occupied, pid fresh) assumed; job-control event protocol (wait_fg_job / try_wait_bg_jobs) is U-WAIT.',
 }
